@@ -268,7 +268,7 @@ func runEffects(o *opts) {
 			all = append(all, t)
 		}
 		cp := rr.chance(1, 2)
-		t, w := p.do(Cmd{Kind: "commit", Copy: cp}, nil, want(10, 11, 13), nil, nil)
+		t, w := p.do(Cmd{Kind: "commit", Copy: cp}, nil, want(10, 11, 13, 7), nil, nil)
 		tagIt(t, "commit")
 		distinct[shape+fmt.Sprint(cp)+t.Pre.Root.coq()] = true
 		t, w = p.do(Cmd{Kind: "status"}, nil, want(2), nil, w)
@@ -279,7 +279,7 @@ func runEffects(o *opts) {
 		tagIt(t, "run")
 		t, w = p.do(Cmd{Kind: "checkout", Copy: rr.chance(1, 2)}, nil, want(10, 8, 9), nil, w)
 		tagIt(t, "checkout")
-		t, w = p.do(Cmd{Kind: "commit", Copy: rr.chance(1, 2)}, nil, want(10, 13), nil, w)
+		t, w = p.do(Cmd{Kind: "commit", Copy: rr.chance(1, 2)}, nil, want(10, 13, 7), nil, w)
 		tagIt(t, "commit again")
 		rmrf(base)
 		if p.CacheCfg != "" && filepath.Dir(p.CacheDir) != base {
